@@ -163,15 +163,15 @@ CONTRACTS[F + 'get_mod_apply_connection_choice'] = dict(
            'choice_node.get_deriving_edges': dict(params=['g'], types={}, returns=f'List[{EDGE}]', modifies=[], assumed=True, receiver='choice_node', ensures=[])},
     raises={'foreign-node': ('ValueError', "exists(i, 0, len(edges), not is_src(edges[i][0]) or (edges[i][1] is not None and not is_tgt(edges[i][1])))")},
     loops={
-        'for edge in edges': [
-            dict(index='i0', invariant={
+        'for edge in edges#0': dict(index='i0', invariant={
                 'checked-so-far': "forall(j, 0, i0, is_src(edges[j][0]) and (edges[j][1] is None or is_tgt(edges[j][1])))"}),
-            dict(index='i1', invariant={
+        'for edge in edges#1': dict(index='i1', invariant={
                 # parallel connections between the same two connectors get the keys 0, 1, 2, ...
-                'next-key-is-the-count': f"forall('p:{CONN}', edge_key[p] == count(edges, p, i1))",
-                'added-are-numbered-connections': f"forall('a:{EDGE}', (a in added_edges) == (a[3] == EdgeType.CONNECTS and 0 <= a[2] and "
-                                                  f"a[2] < count(edges, (a[0], a[1]), i1)))"}),
-        ],
+                'next-key-is-the-count': f"forall('p:{CONN}', implies(p[1] is not None, edge_key[p] == count(edges, p, i1)))",
+                'added-are-numbered-connections': f"forall('a:{EDGE}', implies(a in added_edges, a[3] == EdgeType.CONNECTS and 0 <= a[2] and "
+                                                  f"a[2] < count(edges, (a[0], a[1]), i1)))",
+                'numbered-connections-are-added': f"forall('a:{EDGE}', implies(a[3] == EdgeType.CONNECTS and 0 <= a[2] and "
+                                                  f"a[2] < count(edges, (a[0], a[1]), i1), a in added_edges))"}),
     },
     ensures={
         'choice-node-removed': ('property', "forall('x:Ref', (x in result[1]) == (x == choice_node))"),
@@ -181,3 +181,152 @@ CONTRACTS[F + 'get_mod_apply_connection_choice'] = dict(
     },
     modifies=[],
 )
+
+# the connector nodes around a connection choice node (sorted lists in the code; only membership matters here)
+N_ = 'adsg_core/graph/adsg_nodes.py:'
+CLASSES['ConnectorNode'] = {}
+SRC_NODES = dict(params=['g'], types={}, returns='List[Ref]', modifies=[], assumed=True, receiver='self',
+                 ensures=[f"forall('x:Ref', (x in result) == (isinstance(x, ConnectorNode) and exists('e:{EDGE}', e in g.edge_set and e[0] == x and e[1] == self)))"])
+TGT_NODES = dict(params=['g'], types={}, returns='List[Ref]', modifies=[], assumed=True, receiver='self',
+                 ensures=[f"forall('x:Ref', (x in result) == (isinstance(x, ConnectorNode) and exists('e:{EDGE}', e in g.edge_set and e[1] == x and e[0] == self)))"])
+ITER_OUT_T = dict(params=['graph', 'node', 'edge_type'], types={}, returns=f'List[{EDGE}]', modifies=[], assumed=True,
+                  ensures=[f"forall('e:{EDGE}', (e in result) == (e in graph.edge_set and e[0] == node and e[3] == edge_type))"])
+ITER_OUT_L = dict(params=['graph', 'node'], types={}, returns=f'List[{EDGE}]', modifies=[], assumed=True,
+                  ensures=[f"forall('e:{EDGE}', (e in result) == (e in graph.edge_set and e[0] == node))"])
+CONTRACTS[N_ + 'ConnectionChoiceNode.get_excluded_edges'] = dict(
+    properties=['C11'],
+    types={'self': 'Ref[ConnectionChoiceNode]', 'graph': 'Ref[NxGraph]'},
+    returns=f'List[{EDGE}]',
+    locals={'excluded': f'List[{EDGE}]'},
+    defs={'is_src': (('x',), f"isinstance(x, ConnectorNode) and exists('e:{EDGE}', e in graph.edge_set and e[0] == x and e[1] == self)")},
+    calls={'self.get_src_nodes': SRC_NODES, 'iter_out_edges': ITER_OUT_T},
+    loops={'for node in self.get_src_nodes(graph)': dict(index='i', seq='srcs', invariant={
+        'only-exclusion-edges-of-sources': "forall(q, 0, len(excluded), excluded[q] in graph.edge_set and excluded[q][3] == EdgeType.EXCLUDES and exists(j, 0, i, srcs[j] == excluded[q][0]))",
+        'all-of-them': f"forall('e:{EDGE}', forall(j, 0, i, implies(e in graph.edge_set and e[3] == EdgeType.EXCLUDES and e[0] == srcs[j], e in excluded)))"})},
+    ensures={'exactly-the-exclusion-edges-of-the-sources': ('property',
+             f"forall('e:{EDGE}', (e in result) == (e in graph.edge_set and e[3] == EdgeType.EXCLUDES and is_src(e[0])))")},
+    modifies=[],
+)
+
+CONTRACTS[N_ + 'ConnectionChoiceNode.get_deriving_edges'] = dict(
+    properties=['C11'],
+    types={'self': 'Ref[ConnectionChoiceNode]', 'graph': 'Ref[NxGraph]'},
+    returns=f'List[{EDGE}]',
+    locals={'deriving_edges': f'List[{EDGE}]', 'tgt_nodes': 'List[Ref]'},
+    defs={'is_src': (('x',), f"isinstance(x, ConnectorNode) and exists('e:{EDGE}', e in graph.edge_set and e[0] == x and e[1] == self)"),
+          'is_tgt': (('x',), f"isinstance(x, ConnectorNode) and exists('e:{EDGE}', e in graph.edge_set and e[1] == x and e[0] == self)")},
+    calls={'self.get_src_nodes': SRC_NODES, 'self.get_tgt_nodes': TGT_NODES, 'iter_out_edges': ITER_OUT_L, 'get_edge_type': GET_TYPE},
+    loops={
+        'for node in self.get_src_nodes(graph)': dict(index='i', seq='srcs', invariant={
+            'only-derivations-between-connectors': "forall(q, 0, len(deriving_edges), deriving_edges[q] in graph.edge_set and deriving_edges[q][3] == EdgeType.DERIVES "
+                                                   "and is_tgt(deriving_edges[q][1]) and exists(j, 0, i, srcs[j] == deriving_edges[q][0]))",
+            'all-of-them': f"forall('e:{EDGE}', forall(j, 0, i, implies(e in graph.edge_set and e[3] == EdgeType.DERIVES and e[0] == srcs[j] and is_tgt(e[1]), e in deriving_edges)))"}),
+        'for edge in iter_out_edges(graph, node)': dict(index='k', seq='outs', invariant={
+            'only-derivations-between-connectors': "forall(q, 0, len(deriving_edges), deriving_edges[q] in graph.edge_set and deriving_edges[q][3] == EdgeType.DERIVES "
+                                                   "and is_tgt(deriving_edges[q][1]) and exists(j, 0, i + 1, srcs[j] == deriving_edges[q][0]))",
+            'all-of-them': f"forall('e:{EDGE}', forall(j, 0, i, implies(e in graph.edge_set and e[3] == EdgeType.DERIVES and e[0] == srcs[j] and is_tgt(e[1]), e in deriving_edges)))",
+            'this-node-so-far': f"forall(q, 0, k, implies(outs[q][3] == EdgeType.DERIVES and is_tgt(outs[q][1]), outs[q] in deriving_edges))"}),
+    },
+    ensures={'exactly-the-derivation-edges-between-sources-and-targets': ('property',
+             f"forall('e:{EDGE}', (e in result) == (e in graph.edge_set and e[3] == EdgeType.DERIVES and is_src(e[0]) and is_tgt(e[1])))")},
+    modifies=[],
+)
+
+
+_C = CONTRACTS[F + 'get_mod_apply_connection_choice']
+_C['calls']['choice_node.get_excluded_edges'] = N_ + 'ConnectionChoiceNode.get_excluded_edges'
+_C['calls']['choice_node.get_deriving_edges'] = N_ + 'ConnectionChoiceNode.get_deriving_edges'
+_C['defs']['is_csrc'] = (('x',), f"isinstance(x, ConnectorNode) and exists('e:{EDGE}', e in graph.edge_set and e[0] == x and e[1] == choice_node)")
+_C['defs']['is_ctgt'] = (('x',), f"isinstance(x, ConnectorNode) and exists('e:{EDGE}', e in graph.edge_set and e[1] == x and e[0] == choice_node)")
+# statement of C11: the exclusion edges of the choice's source connectors go, together with the derivation edges that
+# tie its source connectors to its target connectors; nothing else is removed
+_C['ensures']['exclusion-and-tie-edges-removed'] = ('property',
+    f"forall('e:{EDGE}', (e in result[0]) == (e in graph.edge_set and is_csrc(e[0]) and "
+    f"(e[3] == EdgeType.EXCLUDES or (e[3] == EdgeType.DERIVES and is_ctgt(e[1])))))")
+
+
+def _conn_graphs(n, seed):
+    import random, os
+    import networkx as nx
+    from adsg_core.graph.graph_edges import EdgeType, add_edge, HashableDict
+    from adsg_core.graph.adsg_nodes import NamedNode, ConnectorNode, ConnectionChoiceNode
+    rng = random.Random(seed + int(os.environ.get('VERIF_SEED', '0') or 0))
+    for _ in range(n):
+        srcs = [ConnectorNode(f's{i}', deg_min=0, deg_max=3, repeated_allowed=True) for i in range(rng.randint(1, 2))]
+        tgts = [ConnectorNode(f't{i}', deg_min=0, deg_max=3, repeated_allowed=True) for i in range(rng.randint(1, 3))]
+        plain = [NamedNode(f'n{i}') for i in range(2)]
+        choice = ConnectionChoiceNode('cc')
+        g = nx.MultiDiGraph()
+        g.edge_attr_dict_factory = HashableDict
+        nodes = srcs + tgts + plain + [choice]
+        g.add_nodes_from(nodes)
+        es = set()
+
+        def add(u, v, t):
+            key = g.new_edge_key(u, v)
+            add_edge(g, u, v, key=key, edge_type=t)
+            es.add((u, v, key, t))
+        for x in srcs:
+            add(x, choice, EdgeType.DERIVES)
+        for x in tgts:
+            add(choice, x, EdgeType.DERIVES)
+        if rng.random() < 0.3:
+            add(plain[0], choice, EdgeType.DERIVES)   # a non-connector predecessor
+        for _ in range(rng.randint(0, 5)):
+            u = rng.choice(srcs + plain)
+            v = rng.choice(tgts + plain + srcs)
+            if u is not v:
+                add(u, v, rng.choice([EdgeType.EXCLUDES, EdgeType.DERIVES, EdgeType.DERIVES, EdgeType.INCOMPATIBILITY]))
+        g.edge_set = es
+        yield rng, g, es, nodes, srcs, tgts, plain, choice
+
+
+def _red(edge):
+    from adsg_core.graph.graph_edges import get_edge_type
+    return tuple(edge[:-1]) + (get_edge_type(edge),)
+
+
+def _uni(nodes, es):
+    from adsg_core.graph.graph_edges import EdgeType
+    cands = set(es)
+    for u in nodes:
+        for v in nodes:
+            for k in (0, 1, 2):
+                cands.add((u, v, k, EdgeType.CONNECTS))
+    return {'Ref': nodes, 'Int': [0, 1, 2, 3], EDGE: list(cands)}
+
+
+def _domain_conn_edges(which):
+    def dom(n):
+        from adsg_core.graph.graph_edges import EdgeType
+        from adsg_core.graph.adsg_nodes import ConnectorNode, ConnectionChoiceNode
+        for rng, g, es, nodes, srcs, tgts, plain, choice in _conn_graphs(n, 8300):
+            env = {'self': choice, 'graph': g, 'EdgeType': EdgeType, 'ConnectorNode': ConnectorNode}
+            yield (env, (lambda g=g, choice=choice: [_red(e) for e in getattr(choice, which)(g)]), _uni(nodes, es),
+                   f'ConnectionChoiceNode.{which}(edges={[(str(u), str(v), k, t.name) for u, v, k, t in es]})')
+    return dom
+
+
+def _domain_apply_connection(n):
+    from adsg_core.graph.graph_edges import EdgeType
+    from adsg_core.graph.adsg_nodes import ConnectorNode
+    from adsg_core.graph.choices import get_mod_apply_connection_choice
+    for rng, g, es, nodes, srcs, tgts, plain, choice in _conn_graphs(n, 8400):
+        edges = []
+        for _ in range(rng.randint(0, 5)):
+            s = rng.choice(srcs) if rng.random() < 0.92 else rng.choice(plain)
+            t = rng.choice(tgts + [None]) if rng.random() < 0.92 else rng.choice(plain)
+            edges.append((s, t))
+        env = {'graph': g, 'choice_node': choice, 'edges': list(edges), 'EdgeType': EdgeType, 'ConnectorNode': ConnectorNode}
+
+        def call(g=g, choice=choice, edges=edges):
+            r = get_mod_apply_connection_choice(g, choice, list(edges))
+            return {_red(e) for e in r[0]}, set(r[1]), {_red(e) for e in r[2]}
+        yield (env, call, _uni(nodes, es),
+               f'get_mod_apply_connection_choice(edges={[(str(u), str(v), k, t.name) for u, v, k, t in es]}, '
+               f'connections={[(str(a), None if b is None else str(b)) for a, b in edges]})')
+
+
+DOMAIN[F + 'get_mod_apply_connection_choice'] = _domain_apply_connection
+DOMAIN[N_ + 'ConnectionChoiceNode.get_excluded_edges'] = _domain_conn_edges('get_excluded_edges')
+DOMAIN[N_ + 'ConnectionChoiceNode.get_deriving_edges'] = _domain_conn_edges('get_deriving_edges')
